@@ -640,6 +640,9 @@ func (c *CEDARTLSConnection) sendMessage(ctx context.Context, data []byte) error
 	return nil
 }
 
+// maxTLSMessageLen bounds one TLS-over-CEDAR message (HTCondor AUTH_SSL_BUF_SIZE).
+const maxTLSMessageLen = 1024 * 1024
+
 // receiveMessage receives TLS handshake data following HTCondor's exact protocol:
 // status (int) + length (int) + data bytes
 func (c *CEDARTLSConnection) receiveMessage(ctx context.Context) ([]byte, error) {
@@ -657,14 +660,16 @@ func (c *CEDARTLSConnection) receiveMessage(ctx context.Context) ([]byte, error)
 		return nil, fmt.Errorf("failed to get TLS data length: %w", err)
 	}
 
+	// The length is chosen by the peer: bound it (HTCondor's AUTH_SSL_BUF_SIZE is
+	// 1 MiB) and let GetBytes allocate only once that many bytes have arrived.
+	if length < 0 || length > maxTLSMessageLen {
+		return nil, fmt.Errorf("invalid TLS data length %d", length)
+	}
+
 	// HTCondor protocol: receive data bytes third (if length > 0)
-	data := make([]byte, length)
-	for i := 0; i < length; i++ {
-		b, err := msg.GetChar(ctx)
-		if err != nil {
-			return nil, fmt.Errorf("failed to get TLS data byte %d: %w", i, err)
-		}
-		data[i] = b
+	data, err := msg.GetBytes(ctx, length)
+	if err != nil {
+		return nil, fmt.Errorf("failed to get %d bytes of TLS data: %w", length, err)
 	}
 
 	// Update peer status
